@@ -7,6 +7,8 @@ MCForms == {"dict", "json", "list", "nested_list", "bundle_dict", "object"}
 Sh(t, sv, hasid) == [t |-> t, sv |-> sv, hasid |-> hasid, inner |-> "none"]
 MCShapes == { Sh("sdo", "none", TRUE), Sh("sdo", "2.1", TRUE), Sh("sco", "none", TRUE), Sh("sco", "2.1", TRUE), Sh("sco", "none", FALSE),
               [t |-> "bundle", sv |-> "2.0", hasid |-> TRUE, inner |-> "2.0"], [t |-> "bundle", sv |-> "none", hasid |-> TRUE, inner |-> "2.1"],
+              \* bundles without members, as the library itself produces them (v20.Bundle() keeps spec_version, v21.Bundle() is type and id only)
+              [t |-> "bundle", sv |-> "2.0", hasid |-> TRUE, inner |-> "none"], [t |-> "bundle", sv |-> "none", hasid |-> TRUE, inner |-> "none"],
               [t |-> "custom", sv |-> "none", hasid |-> TRUE, inner |-> "none", reg |-> "2.0"],
               [t |-> "custom", sv |-> "2.1", hasid |-> TRUE, inner |-> "none", reg |-> "2.1"] }
 ASSUME ProducedRecognised
